@@ -72,6 +72,23 @@ pub fn neutralise(rule: &str, prop: &str, case: &J) -> Option<J> {
 			}
 			Some(j)
 		}
+		"msgpack_trial_reads_ahead_on_text" => {
+			// C05 only: the stream is handed over WITHOUT a format and starts with a byte that
+			// MessagePack reads as the header of an array 16/32 or map 16/32 (0xDC-0xDF: in
+			// UTF-8 text the lead byte of U+0700-U+07FF) - the trial then consumes the stream
+			// as "elements". Neutralise: name the format the workload built the stream in.
+			if prop != "C05" {
+				return None;
+			}
+			let mut sc = Scenario::from_json(case)?;
+			let f = sc.params.get("fmt").and_then(J::as_str).and_then(Fmt::parse)?;
+			let last = sc.calls.last_mut()?;
+			if last.from.is_some() || !matches!(last.bytes.first(), Some(0xdc..=0xdf)) || f == Fmt::Msgpack {
+				return None;
+			}
+			last.from = Some(f);
+			Some(sc.to_json())
+		}
 		"yaml_position_after_flip" => {
 			// C09 library runs only: reader supply with detection, YAML selected, both the
 			// detected and the explicit run fail, and their texts are equal once
